@@ -546,6 +546,14 @@ Fixpoint expand (pend : str) (bes : list bevent) : list event :=
 Definition run_bytes (fl : flavour) (st : store) (bes : list bevent) : world :=
   run fl (init_world st) (expand [] bes ++ [EEof]).
 
+(** The session on one raw client byte stream, then EOF (the analogue of SmtpWire.run_bytes):
+    [read_lines] is the sequence of [ReadString('\n')] results - every complete line with
+    its LF; the unterminated rest is what ReadString returns together with io.EOF and the
+    loop throws away. *)
+Definition read_lines (w : str) : list str := fst (feed [] w).
+Definition run_stream (fl : flavour) (st : store) (w : str) : world :=
+  run fl (init_world st) (map ELine (read_lines w) ++ [EEof]).
+
 (** * Specification side: what the property demands, evaluated on observed replies *)
 
 (** The abstract session of the property text: the snapshot taken at login (ids and sizes
